@@ -579,12 +579,13 @@ pub fn gen_cases(rng: &mut Rng, tier: &str, prop: &str) -> Vec<Line> {
     let nblocks = if i % 10 == 0 { rng.range(1, 3) } else { rng.range(2, max_blocks) };
     let max_tx = *rng.pick(&[0u64, 2, 4, 6]);
     let (mut chain, _) = gen_chain(rng, nblocks, max_tx);
-    // C17's model commits after every block; chains of the known class dup-spent-before-commit
-    // (schedule dependent content) are exercised under C01/C02 and by the corpus only
-    while prop == "C17" && crate::oracle::has_spent_duplicate(&Case { sched: Sched::default(), chain: chain.clone(), queries: Vec::new() }) {
+    let sched = gen_sched(rng, nblocks, prop);
+    // C17's extracted model follows the real commit points only when the node reports far-ahead
+    // headers (no savepoint commits); otherwise chains of the known class dup-spent-before-commit
+    // (schedule dependent content) are left to C01/C02 and the corpus
+    while prop == "C17" && !sched.headers_far && crate::oracle::has_spent_duplicate(&Case { sched: Sched::default(), chain: chain.clone(), queries: Vec::new() }) {
       chain = gen_chain(rng, nblocks, max_tx).0;
     }
-    let sched = gen_sched(rng, nblocks, prop);
     let queries = if prop == "C02" { gen_queries(rng, &chain) } else { Vec::new() };
     v.push(case_line(&Case { sched, chain, queries }));
   }
